@@ -202,7 +202,22 @@ func verifAdvance(d veriftime.Duration) { veriftime.Sleep(d) }
 func verifWake(n int) { veriftime.Sleep(veriftime.Duration(n) * 12 * veriftime.Millisecond) }
 
 // verifSettle lets woken goroutines run until they park again (executor: wait for quiescence; natively a short sleep).
-func verifSettle() { veriftime.Sleep(6 * veriftime.Millisecond) }
+func verifSettle() {
+	if !verifRaceMode {
+		deadline := veriftime.Now().Add(2 * veriftime.Second)
+		for {
+			verifSch.mu.Lock()
+			verifSchInit()
+			done := verifSch.free || verifSch.pos >= len(verifSch.vec) || verifSch.vec[verifSch.pos] == 0
+			verifSch.mu.Unlock()
+			if done || veriftime.Now().After(deadline) {
+				break
+			}
+			veriftime.Sleep(veriftime.Millisecond)
+		}
+	}
+	veriftime.Sleep(25 * veriftime.Millisecond)
+}
 
 // ---- native schedule replay (thread harnesses) ----
 // sv replay compiles instrumented copies of the package's files in which verifSched() precedes every visible
